@@ -439,6 +439,40 @@ fn main() {
             }
         }
     }
+    // the packet parser above the body reader: a packet whose stream ends before the declared length is never handed out as a
+    // packet, also when its own parser needs fewer octets than were declared (marker, one-pass signature, MDC, trust, ...);
+    // the same body honestly framed is accepted (so the refusal is about the length)
+    {
+        let ops: Vec<u8> = { let mut v = vec![3u8, 0, 8, 1]; v.extend([7u8; 8]); v.push(1); v };
+        let bodies: Vec<(u8, Vec<u8>)> = vec![(10, b"PGP".to_vec()), (4, ops), (19, vec![0x5a; 20]), (12, vec![1, 2, 3]), (13, b"someone".to_vec()), (21, vec![9; 12]),
+            (11, { let mut v = vec![b'b', 0, 0, 0, 0, 0]; v.extend(b"data"); v })];
+        for (tag, body) in &bodies {
+            for extra in [0usize, 1, 2, 16, 300, 70000] {
+                let declared = body.len() + extra;
+                let mut framings: Vec<(String, Vec<u8>)> = Vec::new();
+                if declared < 192 { let mut w = vec![0xC0 | tag, declared as u8]; w.extend(body); framings.push(("new-1".into(), w)); }
+                if (192..8384).contains(&declared) { let mut w = vec![0xC0 | tag, ((declared - 192) >> 8) as u8 + 192, ((declared - 192) & 0xff) as u8]; w.extend(body); framings.push(("new-2".into(), w)); }
+                { let mut w = vec![0xC0 | tag, 255]; w.extend((declared as u32).to_be_bytes()); w.extend(body); framings.push(("new-5".into(), w)); }
+                if *tag < 16 {
+                    if declared < 256 { let mut w = vec![0x80 | (tag << 2), declared as u8]; w.extend(body); framings.push(("old-1".into(), w)); }
+                    if declared < 65536 { let mut w = vec![0x80 | (tag << 2) | 1]; w.extend((declared as u16).to_be_bytes()); w.extend(body); framings.push(("old-2".into(), w)); }
+                    { let mut w = vec![0x80 | (tag << 2) | 2]; w.extend((declared as u32).to_be_bytes()); w.extend(body); framings.push(("old-4".into(), w)); }
+                }
+                for (fname, w) in framings {
+                    let r = guarded(|| { let mut pp = PacketParser::new(&w[..]); let first = pp.next(); let second = pp.next(); (matches!(first, Some(Ok(_))), first.is_none(), second.is_none()) });
+                    let rp = vec!["parser-short-body".to_string(), tag.to_string(), extra.to_string(), fname.clone(), hx(&w)];
+                    match r {
+                        Ok((ok, none, second_none)) => {
+                            let pred = if extra == 0 { ok && second_none } else { !ok && !none };
+                            cx.out.case("", &[], &rp, &format!("handed-out={ok} silent-end={none}"), Some(pred), if extra == 0 { "parser-honest-length" } else { "parser-short-body" });
+                        }
+                        Err(p) => cx.out.case("", &[], &rp, &p, Some(false), "parser-short-body-panic"),
+                    }
+                }
+            }
+        }
+    }
+
     // every first octet x a few second octets over a short tail
     for o in 0u16..256 {
         for &l in &[0u8, 5, 191, 192, 223, 224, 233, 254, 255] {
